@@ -36,6 +36,7 @@ ASSUMPTIONS = ["pvm/ref/inet.py implements RFC 1071 and the pseudo-headers",
 REQUIRED = ["built", "fields_compared", "repacked", "ipv4_csums", "l4_csums",
             "icmp_csums", "odd_payloads", "even_payloads", "corpus_roundtrips",
             "ip_payloads_shorter_than_their_protocol_header",
+            "last_fragments_of_parsed_protocols",
             "template_frames_roundtripped", "library_chosen_identifications",
             "earlier_packets_rechecked",
             "v6_csums"]
@@ -217,6 +218,12 @@ def build (kind, rng):
       ipr = ip4(proto, payload[:rng.randrange(0, n)])
     if rng.random() < 0.4:
       # a fragment (any flags, the whole range of offsets)
+      if rng.random() < 0.5:
+        # ... of a datagram whose protocol the library has a parser for: what
+        # a later fragment carries is a stretch of that datagram's data, not a
+        # header of that protocol, and stays the bytes it is -- whether more
+        # fragments follow or this is the last one
+        ipr = ip4(rng.choice([1, 2, 6, 17, 47]), payload)
       ipr.flags = rng.randrange(8)
       ipr.frag = rng.choice([1, 185, 0x0fff, 0x1000, 0x1fff])
     set_l3(0x0800, ipr)
@@ -532,9 +539,13 @@ def run_built (case, rep):
   rep.count("built")
   if kind == "ip_raw":
     try:
-      if [x for x in chain(p)[0] if type(x).__name__ == "ipv4"][0].protocol \
-         in (1, 2, 6, 17, 47):
-        rep.count("ip_payloads_shorter_than_their_protocol_header")
+      ipx = [x for x in chain(p)[0] if type(x).__name__ == "ipv4"][0]
+      if ipx.protocol in (1, 2, 6, 17, 47):
+        if ipx.frag and len(ipx.payload) >= 20:
+          rep.count("later_fragments_of_parsed_protocols")
+          if not (ipx.flags & 1): rep.count("last_fragments_of_parsed_protocols")
+        else:
+          rep.count("ip_payloads_shorter_than_their_protocol_header")
     except Exception:
       pass
   for (tn, before), x in zip(asked, chain(p)[0]):
